@@ -651,6 +651,97 @@ def driveC03 (args : List String) : String :=
     | none => "bad-op"
   | _ => "bad-op"
 
+
+/-! ### HTTP client stream scripts: subset-construction explorer over `HttpClientStream.step`.
+    The harness plays the transport: t.reply, t.replystatus:N, t.replybad, t.fail, t.item:<kind>[:n],
+    t.end, t.readreq; client ops cs.send:n, cs.closesend, cr.recv, cr.header; env.cancel / env.expire. -/
+namespace HCX
+open HttpClientStream
+open InprocStream (Reason Res)
+
+def showEv : Ev → String
+  | .ret .cs r => "cs:" ++ ISX.showRes r
+  | .ret .cr r => "cr:" ++ ISX.showRes r
+
+/-- the transport's reaction to a done context (as net/http): the response body fails -/
+def bodyFails (s : St) : Option St :=
+  if s.ctx.isSome && s.replied && !s.bodyEnded then (step s (.tItem .bad)).map (·.1) else none
+
+partial def closure (fuel : Nat) (frontier : List (St × List String)) (done : List (St × List String)) : List (St × List String) :=
+  match fuel, frontier with
+  | 0, _ => done ++ frontier
+  | _, [] => done
+  | fuel + 1, (s, evs) :: rest =>
+    match bodyFails s with
+    | some s' => closure fuel ((s', evs) :: rest) done
+    | none =>
+    let succs := internalActs.filterMap fun a => (step s a).map fun (s', es) => (s', evs ++ es.map showEv)
+    if succs.isEmpty then
+      let item := (s, ISX.sortStrs evs)
+      closure fuel rest (if done.contains item then done else item :: done)
+    else
+      let newOnes := succs.filter fun x => !(rest.contains x)
+      closure fuel (newOnes ++ rest) done
+
+def actOf (ao : String) (arg : String) : Option Act :=
+  match ao with
+  | "t.reply" => some .tReply
+  | "t.replystatus" => arg.toNat?.map .tReplyStatus
+  | "t.replybad" => some .tReplyBadHeaders
+  | "t.fail" => some .tFail
+  | "t.end" => some .tEnd
+  | "t.readreq" => some .tReadReq
+  | "t.item" =>
+    (match arg.splitOn ":" with
+     | ["data", n] => n.toNat?.map fun n => .tItem (.data n true)
+     | ["baddata", n] => n.toNat?.map fun n => .tItem (.data n false)
+     | ["trailer", c] => c.toNat?.map fun c => .tItem (.trailer c true)
+     | ["badtrailer"] => some (.tItem (.trailer 0 false))
+     | ["bad"] => some (.tItem .bad)
+     | _ => none)
+  | "cs.send" => arg.toNat?.map .cSendBegin
+  | "cs.closesend" => some .cCloseSend
+  | "cr.recv" => some .cRecvBegin
+  | "cr.header" => some .cHeader
+  | "cr.trailer" => some .cTrailer
+  | "env.cancel" => some (.cancel .canceled)
+  | "env.expire" => some (.cancel .deadline)
+  | _ => none
+
+def runScript (respStream : Bool) (ops : List String) : String :=
+  let rec go (k : Nat) (states : List St) : List String → String
+    | [] => "accept"
+    | opStr :: rest =>
+      match opStr.splitOn "=>" with
+      | [lhs, obs] =>
+        let observed := ISX.sortStrs (if obs.isEmpty then [] else obs.splitOn ",")
+        let (ao, arg) := match lhs.splitOn ":" with
+          | [x] => (x, "")
+          | x :: more => (x, ":".intercalate more)
+          | [] => ("", "")
+        match actOf ao arg with
+        | none => s!"bad-op@{k}"
+        | some a =>
+          let started := states.filterMap fun s => (step s a).map fun (s', es) => (s', es.map showEv)
+          let outs := closure 4000 started []
+          let matching := (outs.filter fun (_, evs) => evs == observed).map (·.1)
+          let dedup := matching.foldl (fun acc s => if acc.contains s then acc else s :: acc) []
+          if dedup.isEmpty then
+            let allowed := (outs.map (·.2)).foldl (fun acc e => if acc.contains e then acc else e :: acc) []
+            s!"reject@{k} op={lhs} observed=[{",".intercalate observed}] model-allows={allowed.map fun e => "[" ++ ",".intercalate e ++ "]"}"
+          else go (k + 1) dedup rest
+      | _ => s!"bad-op@{k}"
+  go 0 [init respStream] ops
+
+end HCX
+
+def driveHC (args : List String) : String :=
+  match args with
+  | [kind, ops] =>
+    let o := argVal ops "ops"
+    HCX.runScript (argVal kind "respstream" == "1") (if o.isEmpty then [] else o.splitOn ";")
+  | _ => "bad-op"
+
 def driveIS (args : List String) : String :=
   match args with
   | [kind, ops] =>
@@ -673,6 +764,7 @@ def dispatch (line : String) : String :=
   | "C10" :: rest => driveC10 rest
   | "C18" :: rest => driveC18 rest
   | "IS" :: rest => driveIS rest
+  | "HC" :: rest => driveHC rest
   | "C03" :: rest => driveC03 rest
   | "IU" :: rest => driveIU rest
   | _ => "bad-op"
